@@ -391,7 +391,13 @@ func (p *Parser) printStatement() (StatementPrint, error) {
 	startToken := *p.previous
 
 	args := make([]Expr, 0)
-	for !p.atStatementEnd() {
+	ended := false
+	for {
+		// atStatementEnd consumes a ';': remember that it ended the statement
+		if p.atStatementEnd() {
+			ended = true
+			break
+		}
 		expr, err := p.expression()
 		if err != nil {
 			return StatementPrint{}, err
@@ -404,7 +410,7 @@ func (p *Parser) printStatement() (StatementPrint, error) {
 		}
 	}
 
-	if p.atStatementEnd() {
+	if ended || p.atStatementEnd() {
 		p.didEndStatement = true
 	}
 	return StatementPrint{startToken, args}, nil
